@@ -1,6 +1,7 @@
 //! C14 — string API round trip with automatic ECI selection.
 
 use super::Prop;
+use crate::cases::*;
 use crate::core::*;
 use crate::gens::*;
 use datamatrix::data::{latin1_to_utf8, utf8_to_latin1};
@@ -25,15 +26,31 @@ pub static PROP: Prop = Prop {
 #[derive(Debug, Clone)]
 pub struct StrCase {
     pub s: String,
+    /// None: `DataMatrix::encode_str(s, SymbolList::default())`; Some((list, modes, macros)): the builder's `encode_str`
+    pub cfg: Option<(u64, u8, bool)>,
     pub stratum: &'static str,
 }
 
 impl Case for StrCase {
     fn to_json(&self) -> Value {
-        json!({"utf8": hex(self.s.as_bytes()), "text": self.s.chars().take(60).collect::<String>()})
+        match self.cfg {
+            None => json!({"utf8": hex(self.s.as_bytes()), "text": self.s.chars().take(60).collect::<String>()}),
+            Some((list, modes, macros)) => json!({"utf8": hex(self.s.as_bytes()), "text": self.s.chars().take(60).collect::<String>(), "symbols": mask_names(list), "modes": mode_names(modes), "macros": macros}),
+        }
     }
     fn fingerprint(&self) -> u64 {
-        fnv64(self.s.as_bytes())
+        fnv64(self.s.as_bytes()) ^ self.cfg.map_or(0, |(l, m, x)| splitmix(l ^ (m as u64) << 50 ^ (x as u64) << 60))
+    }
+}
+
+impl StrCase {
+    pub fn from_json(case: &Value) -> Option<Self> {
+        let s = String::from_utf8(unhex(case["utf8"].as_str()?)?).ok()?;
+        let cfg = match case.get("symbols") {
+            Some(l) if !l.is_null() => Some((names_to_mask(l)?, names_to_modes(&case["modes"])?, case["macros"].as_bool()?)),
+            _ => None,
+        };
+        Some(StrCase { s, cfg, stratum: "replay" })
     }
 }
 
@@ -42,7 +59,11 @@ fn printable_latin1(s: &str) -> bool {
 }
 
 pub fn check(c: &StrCase) -> Verdict {
-    let dm = match guard(|| DataMatrix::encode_str(&c.s, SymbolList::default())) {
+    let enc = || match c.cfg {
+        None => DataMatrix::encode_str(&c.s, SymbolList::default()),
+        Some((list, modes, macros)) => datamatrix::DataMatrixBuilder::new().with_symbol_list(mask_to_list(list)).with_encodation_types(modes_to_flags(modes)).with_macros(macros).encode_str(&c.s),
+    };
+    let dm = match guard(enc) {
         Ok(Ok(dm)) => dm,
         Ok(Err(_)) => return Verdict::Pass(Pass::new(format!("{}/refused", c.stratum), false).count("refused", 1)),
         Err(_) => return Verdict::Pass(Pass::new(format!("{}/encoder-panic(C11)", c.stratum), false).count("encoder_panics", 1)),
@@ -84,7 +105,7 @@ pub fn check(c: &StrCase) -> Verdict {
         }
     }
     let macro_env = d.macro_cw.is_some();
-    Verdict::Pass(Pass::new(format!("{}/{}{}", c.stratum, if latin { "latin1" } else { "utf8-eci" }, if macro_env { "/macro" } else { "" }), !latin || macro_env))
+    Verdict::Pass(Pass::new(format!("{}/{}{}{}", c.stratum, if latin { "latin1" } else { "utf8-eci" }, if macro_env { "/macro" } else { "" }, if c.cfg.is_some() { "/builder-config" } else { "" }), !latin || macro_env))
 }
 
 fn g_char(kind: usize) -> BoxedStrategy<char> {
@@ -111,9 +132,31 @@ fn g_body(max: usize) -> BoxedStrategy<(String, &'static str)> {
 }
 
 fn g_str() -> BoxedStrategy<StrCase> {
+    // a third of the strings go through the builder with a generated symbol list / mode set / macro flag
+    (g_str_plain(), any::<u8>(), g_list(), g_modes(), any::<bool>())
+        .prop_map(|(mut c, k, list, modes, macros)| {
+            if k % 3 == 0 {
+                let mask = match list {
+                    ListSpec::Default => default_mask(),
+                    ListSpec::All => ALL_MASK,
+                    ListSpec::Mask(m) => m,
+                    // fitted around the symbol the default configuration picks for the UTF-8 / Latin-1 bytes
+                    ListSpec::Fit(j) => {
+                        let bytes = datamatrix::data::utf8_to_latin1(&c.s).unwrap_or_else(|| c.s.as_bytes().to_vec());
+                        resolve_fit(&bytes, modes, macros, false, j)
+                    }
+                };
+                c.cfg = Some((mask, modes, macros));
+            }
+            c
+        })
+        .boxed()
+}
+
+fn g_str_plain() -> BoxedStrategy<StrCase> {
     prop_oneof![
-        6 => g_body(40).prop_map(|(s, st)| StrCase { s, stratum: st }),
-        2 => g_body(300).prop_map(|(s, st)| StrCase { s, stratum: st }),
+        6 => g_body(40).prop_map(|(s, st)| StrCase { s, cfg: None, stratum: st }),
+        2 => g_body(300).prop_map(|(s, st)| StrCase { s, cfg: None, stratum: st }),
         4 => (g_body(30), any::<bool>(), any::<u8>()).prop_map(|((body, _), six, k)| {
             let head = if six { "[)>\u{1e}06\u{1d}" } else { "[)>\u{1e}05\u{1d}" };
             let (s, st) = match k % 5 {
@@ -121,7 +164,7 @@ fn g_str() -> BoxedStrategy<StrCase> {
                 3 => (format!("{}{}", head, body), "macro-head-only"),
                 _ => (format!("{}\u{1e}\u{04}", body), "macro-trail-only"),
             };
-            StrCase { s, stratum: st }
+            StrCase { s, cfg: None, stratum: st }
         }),
     ]
     .boxed()
@@ -220,7 +263,7 @@ fn run(ctx: &Arc<Ctx>) {
     // fixed strings
     let fixed: Vec<StrCase> = ["", "A", "Hello, World!", "\u{1f978}", "[)>\u{1e}05\u{1d}\u{1f918}\u{1e}\u{04}", "\u{e4}\u{f6}\u{fc}", "a\tb", "\u{80}", "\u{a0}\u{ff}", "\u{7f}"]
         .iter()
-        .map(|s| StrCase { s: s.to_string(), stratum: "fixed" })
+        .map(|s| StrCase { s: s.to_string(), cfg: None, stratum: "fixed" })
         .collect();
     ctx.run_enumerated("fixed", "str", fixed, None, check);
     ctx.run_generated("strings", "str", ctx.cases(400_000, 6_000_000), g_str, check);
@@ -228,7 +271,7 @@ fn run(ctx: &Arc<Ctx>) {
 
 fn replay(_ctx: &Ctx, kind: &str, case: &Value) -> Option<Verdict> {
     match kind {
-        "str" => Some(check(&StrCase { s: String::from_utf8(unhex(case["utf8"].as_str()?)?).ok()?, stratum: "replay" })),
+        "str" => Some(check(&StrCase::from_json(case)?)),
         "byte" => Some(check_byte(&ByteCase(case["byte"].as_u64()? as u8))),
         "scalars" => Some(check_scalars(&ScalarBlock { start: case["scalar_start"].as_u64()? as u32, len: case["len"].as_u64()? as u32 })),
         _ => None,
